@@ -2118,8 +2118,6 @@ fn run_graph(plan: &Planned, m: &mut Model, rep: &mut Report, r: &mut Rng, budge
             }
         }
     }
-    let t_w = std::time::Instant::now();
-    let mut d_aw = std::time::Duration::ZERO;
     // ---- weighted
     let has_zero = g.edges.iter().any(|e| weight_of(e) == 0);
     for &s in &all {
@@ -2152,9 +2150,7 @@ fn run_graph(plan: &Planned, m: &mut Model, rep: &mut Report, r: &mut Rng, budge
                     c.rep.hit("allwpaths.zero_weight_graph");
                 }
                 if g.nodes.len() <= 12 || r.chance(1, 3) {
-                    let t_x = std::time::Instant::now();
                     do_all_weighted(&mut c, s, t, &costs, None);
-                    d_aw += t_x.elapsed();
                     if r.chance(1, 4) {
                         // both caps small: max_paths cuts the enumeration, max_parents_per_node the parent lists
                         let caps = (1 + r.below(3) as usize, r.below(3) as usize);
@@ -2164,8 +2160,6 @@ fn run_graph(plan: &Planned, m: &mut Model, rep: &mut Report, r: &mut Rng, budge
             }
         }
     }
-    let d_w = t_w.elapsed();
-    let t_ap = std::time::Instant::now();
     // ---- all shortest paths
     for &s in &all {
         for &t in &all {
@@ -2178,7 +2172,6 @@ fn run_graph(plan: &Planned, m: &mut Model, rep: &mut Report, r: &mut Rng, budge
             }
         }
     }
-    let d_ap = t_ap.elapsed();
     // ---- traversals
     let dirs = [Direction::Outgoing, Direction::Incoming, Direction::Both];
     // ---- the stored adjacency itself: edges_of / neighbors of every node in every direction
@@ -2224,13 +2217,9 @@ fn run_graph(plan: &Planned, m: &mut Model, rep: &mut Report, r: &mut Rng, budge
         }
     }
     // ---- algorithm family: whole graph, then restricted to one edge type
-    let t_al = std::time::Instant::now();
     do_algorithms(&mut c, None);
     let t = r.below(3) as u8;
     do_algorithms(&mut c, Some(t));
-    if std::env::var("C18_TIMING").is_ok() {
-        eprintln!("TIMING n={} e={} aw={:?} weighted={:?} allpaths={:?} algos={:?}", g.nodes.len(), g.edges.len(), d_aw, d_w, d_ap, t_al.elapsed());
-    }
 }
 
 struct Budget {
@@ -2269,6 +2258,21 @@ fn templates() -> Vec<Planned> {
         mk(3, vec![e(0, 1, true, Some(3)), e(0, 2, true, Some(9)), e(0, 2, true, Some(1))], "tpl-astar-edge-choice"),
         // triangle with a pendant on the smallest id (degree order != id order)
         mk(4, vec![e(0, 1, false, None), e(1, 2, false, None), e(0, 2, false, None), e(0, 3, false, None)], "tpl-triangle-pendant"),
+        // diamond of two equal-weight routes beside a direct edge of the same total: three minimum-weight
+        // paths (the loop must keep running until the popped cost exceeds the destination cost, and
+        // equal-cost parents must be appended, not replaced)
+        mk(4, vec![e(0, 1, true, Some(1)), e(0, 2, true, Some(1)), e(1, 3, true, Some(1)), e(2, 3, true, Some(1)), e(0, 3, true, Some(2))], "tpl-diamond-equal"),
+        // an undirected edge created as 1--0 and left from its `to` end (find_all_weighted_paths lists
+        // the path twice: recorded as an observation), next to a directed parallel edge
+        mk(3, vec![e(1, 0, false, Some(2)), e(0, 1, true, Some(2)), e(1, 2, false, Some(0))], "tpl-undirected-from-to-end"),
+        // two triangles joined by a bridge, a pendant and an isolated node: components, articulation points,
+        // bridges, core numbers 2/2/2/2/2/2/1/0, SCCs of the directed half
+        mk(8, vec![e(0, 1, false, Some(1)), e(1, 2, false, Some(1)), e(2, 0, false, Some(1)), e(2, 3, false, Some(4)),
+                   e(3, 4, true, Some(1)), e(4, 5, true, Some(1)), e(5, 3, true, Some(1)), e(5, 6, true, Some(7))], "tpl-two-triangles-bridge"),
+        // Kruskal: a negative weight, a missing weight (= 1) and a tie between the two heaviest edges of a cycle
+        mk(5, vec![e(0, 1, false, Some(3)), e(1, 2, false, Some(-1)), e(0, 2, false, Some(3)), e(2, 3, false, None)], "tpl-mst-tie-negative"),
+        // union by rank: two chains merged at their far ends, then a redundant edge (path compression on a deep tree)
+        mk(6, vec![e(0, 1, false, Some(1)), e(2, 3, false, Some(1)), e(4, 5, false, Some(1)), e(1, 3, false, Some(2)), e(3, 5, false, Some(2)), e(0, 5, false, Some(9))], "tpl-union-chains"),
     ]
 }
 
@@ -2317,8 +2321,8 @@ fn corpus() -> Vec<Planned> {
 fn main() {
     let args = parse_args();
     let mut rep = Report::new(
-        "a case = one query (find_path / find_weighted_path / traverse / find_variable_paths / A* / find_all_paths / one algorithm) on one generated graph; \
-         non-trivial = both endpoints exist and differ (paths), depth>0 (traverse), at least one path returned (variable-length); keyed by graph shape + query text",
+        "a case = one query (find_path / find_weighted_path / traverse / find_variable_paths / A* / find_all_paths / find_all_weighted_paths / edges_of / neighbors / one algorithm under one config) on one generated graph; \
+         non-trivial = both endpoints exist and differ (paths), depth>0 (traverse), at least one path returned (variable-length), the node exists (edges_of / neighbors); keyed by graph shape + query text",
     );
     rep.expected_branches = [
         "path.ok", "path.none", "path.nonode", "path.filtered.ok", "path.filtered.none", "path.filter.blocked",
@@ -2368,7 +2372,8 @@ fn main() {
         let plan = plan_graph(&mut gen, if i % 4 == 3 { 1 } else { 0 }, true);
         run_graph(&plan, &mut m, &mut rep, &mut qr, &budget);
     }
-    rep.note("A* (zero heuristic) is modelled for its cost only; find_all_weighted_paths and the algorithm family (components, SCC, spanning forest, core numbers, triangles, articulation points, bridges) have no Lean model: the engine is compared with independent harness-side reference implementations only (Spec section of Paths/Spec.lean gives the definitions they compute)");
+    rep.note("A* (zero heuristic) is modelled for its cost only (the returned path is validated by the harness-side oracles); count_triangles in its default directed mode has a model but no textbook definition; custom A* heuristics, biconnected components' edge sets, SCC condensation, clustering coefficients, find_variable_paths memory limit / stats are not modelled");
+    rep.note("hash-map / hash-set iteration orders (neighbour sets, Kruskal's edge scan, DFS visiting order) are unspecified in the engine: answers are compared canonicalised (sets, partitions, totals, ascending accepted weights), and the Lean theorems prove the compared quantities independent of the order");
     rep.note("graphs with a negative weight are outside the property's quantifier: find_weighted_path is only compared with the model there (error/early-exit behaviour)");
     rep.note("weights are integers (Int or integer-valued Float properties) with path sums < 2^53, on which the engine's f64 arithmetic is exact");
     rep.write(&args.out);
